@@ -33,11 +33,11 @@ def mirror_targets(prop, failing):
         fn = f.get("fn", "")
         if f.get("kani"):
             continue
-        if fn.startswith("SplitKmer::") or fn.startswith("UInt::") or fn in ("encode_base", "decode_base", "rc_base", "valid_base"):
+        if fn.startswith("SplitKmer::") or fn.startswith("UInt::") or fn.startswith("NtHashIterator::") or fn in ("encode_base", "decode_base", "rc_base", "valid_base"):
             t.add("kmer")
         if fn.startswith("AlnWriter::"):
             t.add("aln")
-        if fn.startswith("IdxCheck"):
+        if fn.startswith("IdxCheck") or fn == "Iterator::next":
             t.add("idx")
         if fn.startswith("repeat"):
             t.add("repeat")
@@ -64,6 +64,34 @@ def search(prop, failing, kres, tier):
     for t in targets:
         try:
             p = subprocess.run([binp, "sweep", t, "thorough" if tier == "thorough" else "quick"], capture_output=True, text=True, timeout=900)
+        except subprocess.TimeoutExpired:
+            out["sweeps"].append({"target": t, "error": "timeout"})
+            continue
+        last = [l for l in p.stdout.splitlines() if l.startswith("{")]
+        rec = json.loads(last[-1]) if last else {"error": p.stderr[-300:]}
+        rec["target"] = t
+        out["sweeps"].append(rec)
+        if rec.get("failing_input") and not out["input"]:
+            out["input"] = {"kind": "mirror", "target": t, "input": rec["failing_input"]}
+    return out
+
+
+MIRRORS_OF = {"C01": ["kmer"], "C02": ["kmer"], "C12": ["kmer"], "C16": ["kmer"], "C04": ["aln", "tables"], "C05": ["idx"]}
+
+
+def sweep_all(prop, cfg):
+    """thorough tier: run every mirror sweep that belongs to the property"""
+    out = {"input": None, "sweeps": []}
+    targets = MIRRORS_OF.get(prop, [])
+    if not targets:
+        return out
+    binp, err = build_mirror()
+    if not binp:
+        out["sweeps"].append({"error": err})
+        return out
+    for t in targets:
+        try:
+            p = subprocess.run([binp, "sweep", t, "thorough"], capture_output=True, text=True, timeout=1800)
         except subprocess.TimeoutExpired:
             out["sweeps"].append({"target": t, "error": "timeout"})
             continue
